@@ -24,25 +24,38 @@ def tags_for(n):
     return tuple((0x21 + 0x1D * i) & 0xFF for i in range(n))
 
 
+def _cfg(mps, L, maxlast=1, gap=1, pace=1, ready=1, bg_last=(), others=(), flush=1, single=1, delays=(1,)):
+    return dict(mps=mps, L=L, maxlast=maxlast, gap=gap, pace=pace, ready=ready, bg_last=list(bg_last), others=list(others),
+                flush=flush, single=single, delays=list(delays))
+
+
 def configs(tier):
     # others: traffic that does not concern the endpoint ("fin" = IN transaction of another device address incl. the host's ACK)
-    q = [dict(mps=2, L=5, maxlast=2, gap=1, pace=1, ready=1, bg_last=[], others=["sof", "in2", "fin"]),
-         dict(mps=2, L=6, maxlast=1, gap=2, pace=1, ready=2, bg_last=[3], others=["out1", "fin"]),
-         dict(mps=3, L=5, maxlast=1, gap=1, pace=1, ready=1, bg_last=[2], others=["fin"]),
-         dict(mps=3, L=7, maxlast=1, gap=1, pace=2, ready=1, bg_last=[], others=[], flush=0),
-         dict(mps=4, L=6, maxlast=1, gap=1, pace=1, ready=3, bg_last=[3], others=[], flush=0),
-         dict(mps=1, L=3, maxlast=2, gap=1, pace=1, ready=1, bg_last=[1], others=["setup", "fin"])]
+    # delays: cycle offsets (from the start of the next bus event) at which the producer's valid level may rise
+    sweep = range(1, 41)
+    q = [_cfg(2, 5, maxlast=2),
+         _cfg(2, 4, gap=2, ready=2, bg_last=[3], others=["out1", "fin"], flush=0),
+         _cfg(2, 4, others=["sof"], flush=0),
+         _cfg(2, 4, others=["in2"], flush=0),
+         _cfg(3, 5, bg_last=[2]),
+         _cfg(3, 7, pace=2, flush=0, delays=[1, 5, 12]),
+         _cfg(4, 6, ready=3, bg_last=[3], flush=0, delays=[1, 9, 17]),
+         _cfg(1, 3, maxlast=2, bg_last=[1], others=["setup", "fin"], flush=0),
+         _cfg(2, 4, maxlast=0, single=0, bg_last=[1], flush=0, delays=sweep),
+         _cfg(2, 5, maxlast=0, single=0, bg_last=[2], delays=sweep),
+         _cfg(3, 6, maxlast=0, single=0, gap=2, ready=2, bg_last=[2], flush=0, delays=range(1, 49))]
     if tier == "quick":
         return q
-    t = [dict(mps=2, L=6, maxlast=3, gap=1, pace=1, ready=1, bg_last=[1], others=["sof", "in2", "out1", "setup", "fin"]),
-         dict(mps=2, L=6, maxlast=2, gap=3, pace=2, ready=2, bg_last=[], others=["fin", "setup"]),
-         dict(mps=3, L=8, maxlast=2, gap=1, pace=1, ready=1, bg_last=[5], others=["in2", "fin"]),
-         dict(mps=3, L=8, maxlast=2, gap=2, pace=1, ready=3, bg_last=[2], others=["fin"]),
-         dict(mps=4, L=10, maxlast=2, gap=1, pace=1, ready=1, bg_last=[7], others=["fin"]),
-         dict(mps=4, L=9, maxlast=2, gap=1, pace=1, ready=2, bg_last=[], others=["sof"]),
-         dict(mps=8, L=18, maxlast=1, gap=1, pace=1, ready=1, bg_last=[15], others=[], flush=0),
-         dict(mps=8, L=10, maxlast=1, gap=1, pace=1, ready=1, bg_last=[], others=["fin"]),
-         dict(mps=64, L=66, maxlast=1, gap=1, pace=1, ready=1, bg_last=[63], others=[], flush=0, single=0)]
+    t = [_cfg(2, 6, maxlast=2, delays=sweep),
+         _cfg(2, 6, maxlast=3, others=["out1", "setup", "fin"], flush=0),
+         _cfg(2, 6, maxlast=2, gap=3, pace=2, ready=2, bg_last=[1], delays=[1, 7, 19]),
+         _cfg(3, 8, maxlast=2, bg_last=[5], delays=range(1, 41, 3)),
+         _cfg(3, 8, maxlast=2, gap=2, ready=3, bg_last=[2], flush=0, others=["fin"]),
+         _cfg(4, 10, maxlast=2, bg_last=[7]),
+         _cfg(4, 9, maxlast=1, ready=2, flush=0, delays=range(1, 41, 2)),
+         _cfg(8, 18, bg_last=[15], flush=0),
+         _cfg(8, 10, others=["fin"], flush=0, delays=[1, 11]),
+         _cfg(64, 66, single=0, maxlast=0, bg_last=[63], flush=0, delays=[1, 30, 60])]
     return q + t
 
 
@@ -57,8 +70,7 @@ class BulkInSpec(Spec):
         self.tags = tags_for(self.L)
         self.last_at = tuple(cfg["bg_last"])
         self.others = list(cfg["others"])
-        self.use_flush = cfg.get("flush", 1)
-        self.single = cfg.get("single", 1)
+        self.use_flush, self.single, self.delays = cfg["flush"], cfg["single"], cfg["delays"]
         self.host = DrivenHost(gap=cfg["gap"], pace=cfg["pace"], ready_period=cfg["ready"], extra=dict(connect=1))
 
     def build(self):
@@ -77,36 +89,39 @@ class BulkInSpec(Spec):
             "producer follows the stream handshake: a byte counts as pushed in the cycle valid and ready are both high; `first` is not driven",
             "traffic to another device address is seen as a hub forwards it downstream: the token and the host's handshake, not the other device's data",
             "short packets without `last` are tolerated once flush has been asserted on the path; otherwise every short packet must end a transfer",
-            "idle producer cycles are run with line_state=K so that the suspend timer does not distinguish states"]
+            "between transactions the bus is either idle for the minimum gap or for a long time (> 641 cycles, all inter-packet timers saturated); one-shot pushes happen during long idle periods, pushes concurrent with bus traffic through the valid level (rising at the configured cycle offsets)",
+            "idle periods are run with line_state=K so that the suspend timer does not distinguish states"]
 
-    # env = (pos, lasts, nl, bg, fl, flushed, hacc, hexp, unacked, dacc, dzlp, since, starve)
+    # env = (pos, lasts, nl, bg, fl, flushed, q, hacc, hexp, unacked, dacc, dzlp, starve)
     #  pos: bytes pushed; lasts: positions pushed with last; nl: number of last markers spent by one-shot pushes;
-    #  bg/fl: producer valid level / flush level; flushed: flush was high at some time on this path;
+    #  bg: producer valid level (0 low, 1 high, k>1: rises after k-1 more cycles); fl: flush level; flushed: flush was high at
+    #  some time on this path; q: 1 = the bus has been idle long enough for the inter-packet timers to have saturated, 2 = the last bus event was
+    #  unrelated traffic (two of those are always separated by a long idle period or a transaction on this endpoint), 0 otherwise;
     #  hacc/hexp: ideal host: bytes accepted, expected toggle;  unacked: (toggle, payload) sent by the device and not (seen) ACKed;
     #  dacc: bytes in packets whose ACK reached the device; dzlp: a zero-length packet is owed (a max-size packet ended a transfer);
-    #  since: kind of unrelated traffic seen since `unacked` was sent; starve: consecutive NAKed polls while a packet was complete
+    #  starve: consecutive NAKed polls while a packet was complete
     def env0(self):
-        return (0, (), 0, 0, 0, 0, 0, 0, None, 0, 0, None, 0)
+        return (0, (), 0, 0, 0, 0, 0, 0, 0, None, 0, 0, 0)
 
     def canon(self, env):
-        pos, lasts, nl, bg, fl, flushed, hacc, hexp, unacked, dacc, dzlp, since, starve = env
-        return (pos, tuple(l for l in lasts if l >= dacc), nl, bg if pos < self.L else 0, fl, flushed, hacc, hexp, unacked, dacc, dzlp,
-                since if unacked is not None else None, starve)
+        pos, lasts, nl, bg, fl, flushed, q, hacc, hexp, unacked, dacc, dzlp, starve = env
+        return (pos, tuple(l for l in lasts if l >= dacc), nl, bg if pos < self.L else 0, fl, flushed, q, hacc, hexp, unacked, dacc, dzlp, starve)
 
     def actions(self, env):
-        pos, lasts, nl, bg, fl = env[:5]
+        pos, lasts, nl, bg, fl, flushed, q = env[:7]
         acts = []
         if pos < self.L:
-            if self.single:
+            if self.single and q == 1:
                 acts.append(("push", 0))
                 if nl < self.cfg["maxlast"]: acts.append(("push", 1))
-            acts.append(("bg",))
+            if bg == 0: acts += [("bg", k) for k in self.delays]
+            else: acts.append(("bg", 0))
         elif bg:
-            acts.append(("bg",))
+            acts.append(("bg", 0))
         if self.use_flush: acts.append(("fl",))
-        acts.append(("tick",))
+        if q != 1 or (bg and pos < self.L): acts.append(("quiet",))
         acts += [("in", "ack"), ("in", "acklost"), ("in", "datalost")]
-        acts += [("x", k) for k in self.others]
+        if q != 2: acts += [("x", k) for k in self.others]
         return acts
 
     def goals(self):
@@ -119,36 +134,46 @@ class BulkInSpec(Spec):
         return g
 
     def apply(self, cur, env, a):
-        pos, lasts, nl, bg, fl, flushed, hacc, hexp, unacked, dacc, dzlp, since, starve = env
-        if a[0] == "bg": return (pos, lasts, nl, bg ^ 1, fl, flushed, hacc, hexp, unacked, dacc, dzlp, since, 0)
-        if a[0] == "fl": return (pos, lasts, nl, bg, fl ^ 1, flushed, hacc, hexp, unacked, dacc, dzlp, since, 0)
+        pos, lasts, nl, bg, fl, flushed, q, hacc, hexp, unacked, dacc, dzlp, starve = env
+        if a[0] == "bg": return (pos, lasts, nl, a[1], fl, flushed, q, hacc, hexp, unacked, dacc, dzlp, 0)
+        if a[0] == "fl": return (pos, lasts, nl, bg, fl ^ 1, flushed, q, hacc, hexp, unacked, dacc, dzlp, 0)
         host = self.host
         prod = Producer(self.tags, pos, lasts, bg, self.last_at, fl)
         host.driver = prod
         flushed = flushed | fl
         try:
-            if a[0] == "tick":
-                o = host.tick(cur)
-                if o.tx_valid: return None
+            if a[0] == "quiet":
+                host.quiet(cur)
+                q = 1
             elif a[0] == "push":
                 prod.once = a[1]
-                o = host.tick(cur)
-                if o.tx_valid: return None
+                host.tick(cur)
                 if a[1] and prod.pos > pos: nl += 1
             elif a[0] == "x":
                 self._other(cur, a[1])
+                q = 2
                 if unacked is not None:
-                    since = a[1]
                     if a[1] == "fin": self.cover["foreign-ack-while-unacked"] += 1
+                    # the packet the device still owes a retry for must survive unrelated traffic (lookahead on a copy)
+                    host.driver = prod.clone()
+                    f = cur.fork()
+                    for _ in range(3):
+                        r = host.send(f, U.token(U.IN, 0, 1), True)
+                        k = U.classify_device_packet(r) if r is not None else None
+                        if k is None or k[0] != "hs": break
+                    if k is not None and k[0] == "hs":
+                        raise Violation("retry:packet-dropped:after-" + a[1], dict(first=unacked, polls="3 x " + U.PIDNAME[k[1]], acked=dacc, pushed=prod.pos))
+                    if k is not None and k[0] == "data" and (1 if k[1] == U.DATA1 else 0, k[2]) != unacked:
+                        raise Violation("retry:packet-changed:after-" + a[1], dict(first=unacked, retry=(U.PIDNAME[k[1]], k[2]), acked=dacc, pushed=prod.pos))
             else:
                 r = self._in(cur, env, a[1], prod, flushed)
                 if prod.pos > pos: self.cover["background-fill"] += 1
-                return (prod.pos, prod.lasts, nl, bg, fl, flushed) + r
+                return (prod.pos, prod.lasts, nl, prod.level, fl, flushed, 0) + r
         except PruneCollision:
             return None
         finally:
             host.driver = None
-        return (prod.pos, prod.lasts, nl, bg, fl, flushed, hacc, hexp, unacked, dacc, dzlp, since, 0)
+        return (prod.pos, prod.lasts, nl, prod.level, fl, flushed, q, hacc, hexp, unacked, dacc, dzlp, 0)
 
     def _other(self, cur, kind):
         host = self.host
@@ -170,7 +195,7 @@ class BulkInSpec(Spec):
 
     def _in(self, cur, env, outcome, prod, flushed):
         """one IN transaction on endpoint 1.  returns the host/device part of the new env."""
-        pos, lasts, nl, bg, fl, _f, hacc, hexp, unacked, dacc, dzlp, since, starve = env
+        pos, lasts, nl, bg, fl, _f, _q, hacc, hexp, unacked, dacc, dzlp, starve = env
         mps, tags, host = self.mps, self.tags, self.host
         empty = unacked is None and pos == dacc and not dzlp
         owed = unacked is not None or dzlp or pos - dacc >= mps or any(l >= dacc for l in lasts)
@@ -190,7 +215,7 @@ class BulkInSpec(Spec):
                     raise Violation("liveness:complete-packet-never-sent", dict(pushed=pos, acked=dacc, unacked=unacked, zlp_owed=dzlp))
             else:
                 starve = 0
-            return (hacc, hexp, unacked, dacc, dzlp, since, starve)
+            return (hacc, hexp, unacked, dacc, dzlp, starve)
         _, pid, payload = kind
         if pid not in (U.DATA0, U.DATA1):
             raise Violation("packet:pid-not-data0-or-data1", dict(pid=U.PIDNAME[pid]))
@@ -203,7 +228,7 @@ class BulkInSpec(Spec):
             raise Violation("packet:exceeds-max-packet-size", dict(length=n, mps=mps))
         if unacked is not None:
             if sent != unacked:
-                raise Violation("retry:packet-changed" + (":after-" + since if since else ""), dict(first=unacked, retry=sent, acked=dacc, pushed=pos))
+                raise Violation("retry:packet-changed", dict(first=unacked, retry=sent, acked=dacc, pushed=pos))
             self.cover["retry-identical"] += 1
         else:
             if tog != hexp:
@@ -226,7 +251,7 @@ class BulkInSpec(Spec):
         # ---- the ideal host
         if outcome == "datalost":
             self.cover["data-lost"] += 1
-            return (hacc, hexp, sent, dacc, dzlp, None, 0)
+            return (hacc, hexp, sent, dacc, dzlp, 0)
         if tog == hexp:
             if payload != tags[hacc:hacc + n]:
                 raise Violation("stream:host-accepts-wrong-data", dict(packet=payload, expected=tags[hacc:hacc + n], accepted=hacc))
@@ -237,12 +262,12 @@ class BulkInSpec(Spec):
             self.cover["duplicate-discarded-by-host"] += 1
         if outcome == "acklost":
             self.cover["ack-lost"] += 1
-            return (hacc, hexp, sent, dacc, dzlp, None, 0)
+            return (hacc, hexp, sent, dacc, dzlp, 0)
         host.send(cur, U.handshake(U.ACK), False)
         dacc += n
         dzlp = 1 if (n == mps and (dacc - 1) in prod.lasts) else 0
         assert hacc == dacc, "reference model: after a delivered ACK host and device agree"
-        return (hacc, hexp, None, dacc, dzlp, None, 0)
+        return (hacc, hexp, None, dacc, dzlp, 0)
 
 
 def make(cfg, tier):
